@@ -38,6 +38,14 @@ Eval(op, a, b, p) ==
       [] op = "to_beta3" -> VecR(ToBeta3(a))
       [] op = "np_power" -> NumR(NormPow(a, p[1]))
       [] op = "scale" -> VecR(VScale(a, p[1]))
+      \* the C01 exception: scaleN / negN / transformN act on the first N Cartesian components and
+      \* leave the *stored* higher coordinates untouched: <<"partial", N, first N components>>
+      [] op = "scale2D" -> <<"partial", 2, P2(VScaleN(a, 2, p[1]))>>
+      [] op = "scale3D" -> <<"partial", 3, P3(VScaleN(a, 3, p[1]))>>
+      [] op = "neg2D" -> <<"partial", 2, P2(VScaleN(a, 2, MinusOne))>>
+      [] op = "neg3D" -> <<"partial", 3, P3(VScaleN(a, 3, MinusOne))>>
+      [] op = "transform2D_partial" -> <<"partial", 2, P2(TransformN(a, p[1]))>>
+      [] op = "transform3D_partial" -> <<"partial", 3, P3(TransformN(a, p[1]))>>
       [] op = "divide" -> IF p[1] = Zero THEN <<"undef">> ELSE VecR(VScale(a, QDiv(One, p[1])))
       [] op = "rotateZ" -> VecR(RotZ(a, p[1]))
       [] op = "rotateX" -> VecR(RotX(a, p[1]))
